@@ -345,7 +345,7 @@ class Kernel:
         if c == 'NonZero::<u32>::get':
             M(c); return [([], args[0].fields[0])]
         if re.search(r'(Arguments::<.*>::(new|from_str)|Argument::<.*>::new_|fmt::rt::)', c):
-            M(c); return [([], Str('fmt'))]
+            M(c); return [([], args[0] if (args and isinstance(args[0], Str) and c.endswith('from_str')) else Str('fmt'))]
         # crate-local function with a body
         cands = [it for it in self.mir.items if it.kind == 'fn' and self.match_callee(it, c, args)]
         if cands:
@@ -430,7 +430,7 @@ class Kernel:
                     v = z3.Not(v)
                 self.obligations.append((list(pc), v, 'MIR assert: ' + m.group(2)))
                 return self._exec(it, m.group(4), env, pc + [v], results, depth + 1)
-            m = re.match(r'(_\d+|\(.+?\)) = (.+?)\((.*)\) -> (\[return: (bb\d+), unwind.*\]|unwind .*)$', st)
+            m = re.match(r'(_\d+|\(.+?\)) = (.+?)\((.*)\) -> (\[return: (bb\d+), unwind.*\]|unwind .*|bb\d+)$', st)
             if m and not re.match(r'(Lt|Le|Gt|Ge|Eq|Ne|Div|Rem|Shl|Shr|ShlUnchecked|ShrUnchecked|BitOr|BitAnd|BitXor|Add|Sub|Mul|AddUnchecked|SubUnchecked|AddWithOverflow|SubWithOverflow|MulWithOverflow|discriminant|Not)$', m.group(2)):
                 args = [self.operand(x, env) for x in split_top(m.group(3))]
                 try:
